@@ -466,7 +466,7 @@ class SoftwareSwitchBase (object):
     err = ofp_error(type=type, code=code)
     if ofp:
       err.xid = ofp.xid
-      err.data = ofp.pack()
+      err.data = getattr(ofp, 'raw', None) or ofp.pack()
     else:
       err.xid = 0
     if data is not None:
@@ -1203,6 +1203,10 @@ class OFConnection (object):
 
       io_worker.consume_receive_buf(message_length)
       self.starting = False
+
+      # (An error reply quotes the request as it was sent -- and not every
+      # request we can decode can be packed again.)
+      msg_obj.raw = message[:message_length]
 
       if self.on_message_received is None:
         raise RuntimeError("on_message_receieved hasn't been set yet!")
